@@ -38,6 +38,11 @@ def gen_cases(ctx):
     for case in c02.gen_cases(ctx):
         if case['disp'] == 'sync' and 'doc' in case:
             yield dict(part='text', table='std', mbs=case['mbs'], text=json.dumps(case['doc']))
+    # the same singles and short batches served by dispatchers whose json_dumper does not use the proposed encoder class (it renders
+    # unknown objects by type name): what the two halves hand to the dumper must be the same kind of data
+    for case in c02.gen_cases(ctx):
+        if case['disp'] == 'sync' and 'doc' in case and case['part'] in ('single', 'a', 'h') and (not isinstance(case['doc'], list) or len(case['doc']) <= 2):
+            yield dict(part='text', table='std', mbs=case['mbs'], text=json.dumps(case['doc']), plain=True)
     for case in c03.gen_failures(ctx):
         if case['disp'] == 'sync':
             yield dict(part='failure', beh=case['beh'], place=case['place'])
@@ -49,7 +54,7 @@ def gen_cases(ctx):
             yield dict(part='stack', stack=case['stack'], table=case['table'], request=case['request'])
     # --- client twins
     for case in c09.gen_cases(ctx):
-        if case.get('kind') == 'sync':
+        if case.get('kind') == 'sync' and case.get('part') != 'churn':
             yield dict(part='retry', cfg=case)
     for case in c19.gen_cases(ctx):
         if case.get('kind') == 'sync':
@@ -92,13 +97,19 @@ BK_BODIES = ('valid', 'empty', 'error', 'not-json', 'wrong-id', 'non-ascii', 'no
 _SYS = {}
 
 
-def three_systems(table_name, mbs):
-    k = (table_name, mbs)
+def plain_dumper(obj, cls=None, **kw):
+    # a dumper of the application's own that ignores the encoder class it is offered
+    return json.dumps(obj, default=lambda o: o.to_json() if hasattr(o, 'to_json') else {'py-object': type(o).__name__})
+
+
+def three_systems(table_name, mbs, plain=False):
+    k = (table_name, mbs, plain)
     if k not in _SYS:
         table = c01.TABLE if table_name == 'c01' else methods.STD_TABLE
-        _SYS[k] = [('sync', Sys('sync', table, max_batch_size=mbs)),
-                   ('async', Sys('async', table, max_batch_size=mbs, coroutine_methods=True)),
-                   ('async-plain', Sys('async', table, max_batch_size=mbs, coroutine_methods=False))]
+        kw = dict(json_dumper=plain_dumper) if plain else {}
+        _SYS[k] = [('sync', Sys('sync', table, max_batch_size=mbs, **kw)),
+                   ('async', Sys('async', table, max_batch_size=mbs, coroutine_methods=True, **kw)),
+                   ('async-plain', Sys('async', table, max_batch_size=mbs, coroutine_methods=False, **kw))]
         if table_name == 'c01':
             for _, s_ in _SYS[k]:
                 c01.register_internal_failures(s_.d)
@@ -119,7 +130,7 @@ def compare_three(rec, case, systems, text, what):
 
 
 def run_text(case, rec):
-    return compare_three(rec, case, three_systems(case['table'], case['mbs']), case['text'], 'request corpus')
+    return compare_three(rec, case, three_systems(case['table'], case['mbs'], bool(case.get('plain'))), case['text'], 'request corpus')
 
 
 def run_failure(case, rec):
